@@ -174,6 +174,14 @@ class C12(PropBase):
                 steps.append({"id": len(steps), "op": "mutate_result", "ref": len(steps) - 1})
                 steps.append({"id": len(steps), "t": t, "mod": mod_, "op": "unmarshal", "x": hist.carry(nested, carrier)})
                 continue
+            if it.get("literal") and rng.random() < 0.12:
+                # motif: a read-only view of a message slot, used again after the producer wrote the next message into it
+                a_, b_ = rng.choice([("[1, 2, 3]", "[4, 5, 6]"), ('{"x": 1, "y": 2}', '{"x": 7, "y": 8}'), ("[[1], [2]]", "[[3], [4]]")])
+                first = len(steps)
+                steps.append({"id": first, "t": t, "mod": rng.choice(mods), "op": "unmarshal", "x": {"$mm": a_.encode().hex()}})
+                steps.append({"id": len(steps), "op": "rewrite_slot", "ref": first, "hex": b_.encode().hex()})
+                steps.append({"id": len(steps), "t": t, "mod": rng.choice(mods), "op": "unmarshal", "x": {"$mm": b_.encode().hex()}, "x_from": first})
+                continue
             if it.get("literal"):
                 # unmarshal the literal text in a text carrier; results are mutated by later faults
                 steps.append({"id": len(steps), "t": t, "mod": rng.choice(mods), "op": "unmarshal", "x": hist.carry(v, rng.choice(["str", "str", "bytes", "mv"]))})
